@@ -217,7 +217,12 @@ def r9_quote_removal(ctx):
     dom = ctx.dom(g, g.entry)
     a = h.node.args.args[0].arg
 
-    def is_strip1(e):
+    def is_strip1(e, node=None):
+        if isinstance(e, ast.Name) and e.id != a:
+            # the shortened text held in a local first
+            ds = [d for d in rd.defs_of(e.id) if isinstance(d.value, ast.AST)]
+            if len(ds) == 1:
+                e = ds[0].value
         return isinstance(e, ast.Subscript) and is_name(e.value, a) and isinstance(e.slice, ast.Slice) and isinstance(e.slice.lower, ast.Constant) and e.slice.lower.value == 1 and \
             isinstance(e.slice.upper, ast.UnaryOp) and isinstance(e.slice.upper.op, ast.USub) and isinstance(e.slice.upper.operand, ast.Constant) and e.slice.upper.operand.value == 1 and e.slice.step is None
     rets = [n for n in g.nodes if n.kind == 'stmt' and isinstance(n.ast, ast.Return) and not n.dup]
@@ -488,6 +493,19 @@ def classify_steps(ctx, f, depth=0):
             if isinstance(a, ast.Call) and isinstance(a.func, ast.Attribute) and a.func.attr == 'split' and not a.args:
                 out.append(Step('ws_collapse', c, a.func.value, f))
                 continue
+    # the same filter written in place: [line for line in <text>.splitlines(..) if not line.endswith('\r')]
+    for comp in walk_scope(f.node):
+        if isinstance(comp, (ast.ListComp, ast.GeneratorExp)) and len(comp.generators) == 1 and comp.generators[0].ifs and isinstance(comp.generators[0].target, ast.Name):
+            gen = comp.generators[0]
+            tv = gen.target.id
+            drops_cr = any(isinstance(t, ast.UnaryOp) and isinstance(t.op, ast.Not) and isinstance(t.operand, ast.Call) and isinstance(t.operand.func, ast.Attribute) and
+                           t.operand.func.attr == 'endswith' and is_name(t.operand.func.value, tv) and t.operand.args and isinstance(t.operand.args[0], ast.Constant) and
+                           t.operand.args[0].value == '\r' for t in gen.ifs)
+            if drops_cr and is_name(comp.elt, tv):
+                subj = gen.iter
+                if isinstance(subj, ast.Call) and isinstance(subj.func, ast.Attribute) and subj.func.attr == 'splitlines':
+                    subj = subj.func.value
+                out.append(Step('cr_lines', comp, subj, f))
     return out
 
 
